@@ -254,7 +254,8 @@ func genC08(w *bufio.Writer, tier string, rng *rand.Rand) {
 			sortFloats(xs)
 			fmt.Fprintf(w, "mx gammagrid %s %s\n", fmtF(a), fmtFs(xs))
 			if rng.Intn(10) == 0 {
-				fmt.Fprintf(w, "mx gammagrid %s [-1p+0,nan,4503599627370496p-52]\n", fmtF([]float64{a, 0, -1, math.NaN()}[rng.Intn(4)]))
+				fmt.Fprintf(w, "mx gammagrid %s %s\n", fmtF([]float64{a, 0, -1, math.NaN(), math.Inf(-1), math.Copysign(0, -1)}[rng.Intn(6)]),
+					fmtFs([]float64{-1, math.NaN(), 1, 0, math.Copysign(0, -1), 1e-300, 700}))
 			}
 		case 6, 7: // Choose / Lchoose
 			nn := rng.Intn(1001)
